@@ -93,7 +93,9 @@ func H_C10_join(n, _ int) {
 	}
 	blocks, refs := Parse(doc)
 	r := &HTMLRenderer{ReferenceMap: refs}
-	got := renderWith(r, blocks)
+	w := &sliceWriter{}
+	check(r.Render(w, blocks) == nil, "C10.render-error")
+	got := w.b
 	var want []byte
 	for i, b := range blocks {
 		if i > 0 {
